@@ -15,10 +15,10 @@ operation with the model (lock level and recorded value exactly; q, u, prescribe
 import os, re, json
 from vlib import *
 
-PROPS = ['Props/Properties_C10.v']
+PROPS = ['Props/Properties_C10.v', 'Props/Properties_C10_mult.v']
 EXTRACT = '''From Coq Require Import Extraction ExtrOcamlBasic.
-Require Import Num Vec rot_gen C10_Model C10_PrescModel.
-Extraction "c10.ml" step run presc presc_udot lock_value motion_values presc_all.
+Require Import Num Vec rot_gen C10_Model C10_PrescModel C10_MultModel.
+Extraction "c10.ml" step run presc presc_udot lock_value motion_values presc_all mob_default pres_slots total_nu unpack pack motion_power dot.
 '''
 
 def build(ctx):
